@@ -887,6 +887,7 @@ func runProgram(sc *Scenario, e *env, out map[string]interface{}) {
 	out["notes"] = e.errs
 	if e.guard != nil {
 		out["guard_rejected"] = e.guard.rejected
+		out["cne_mincommit_normalised"] = e.guard.cneNormalised
 	}
 	for _, s := range e.stores {
 		st := s
@@ -963,7 +964,12 @@ func runScenario(sc *Scenario) map[string]interface{} {
 	}
 	for _, x := range sc.Extras {
 		x := x
-		g.plan.hooks[x.At] = func() { e.helper(x.What, x.K, S) }
+		if strings.HasPrefix(x.What, "after:") {
+			// runs once the request was applied by the store, before its answer is seen (or dropped)
+			g.plan.after[x.At] = func() { e.helper(strings.TrimPrefix(x.What, "after:"), x.K, S) }
+		} else {
+			g.plan.hooks[x.At] = func() { e.helper(x.What, x.K, S) }
+		}
 	}
 	g.plan.active.Store(true)
 	told := "none"
@@ -1075,6 +1081,7 @@ loop:
 	out["notes"] = e.errs
 	if e.guard != nil {
 		out["guard_rejected"] = e.guard.rejected
+		out["cne_mincommit_normalised"] = e.guard.cneNormalised
 	}
 	// close what can be closed
 	for id, s := range e.stores {
